@@ -16,8 +16,20 @@ def plans(quick):
                  checks=[dict(steps=5, slots=2, force=False, fail=False, count=True, rcs=['d1', 'd2'])],
                  gen=dict(steps=4, slots=1, lists=[['d1'], ['d2'], ['d1', 'd2']], force=False), cover_limit=120,
                  walks=40, sim=dict(num=150, depth=12)),
+            # two chain variables over ONE configuration, exhaustively: inspection / requests of one chain interleaved
+            # with computations through the other
+            dict(family='chain',
+                 gen=dict(steps=5, slots=2, rcs=['r1'], lists=[['r1']], force=False, fail=False, restart=False),
+                 cover_limit=None, walks=0),
+            dict(family='kinds',
+                 gen=dict(steps=3, slots=1, lists=[['k1'], ['k2']], force=False, fail=False), cover_limit=80, walks=30,
+                 sim=dict(num=60, depth=10, force=False, fail=False)),
         ]
     return [
+        dict(family='chain', gen=dict(steps=6, slots=2, rcs=['r1'], lists=[['r1']], force=False, fail=False, restart=False)),
+        dict(family='kinds', checks=[dict(steps=5, slots=2, force=False, fail=False, count=True)],
+             gen=dict(steps=4, slots=1, force=False), walks=200, sim=dict(num=800, depth=14)),
+    ] + [
         dict(family=f,
              checks=[dict(steps=8, slots=2, force=False, fail=False, count=True), dict(steps=5, slots=2, count=True)],
              gen=dict(steps=5, slots=1, force=False), walks=300, walk_len=16, sim=dict(num=2000, depth=18))
